@@ -12,7 +12,10 @@ FUNCS = [('modeling.py', 'contracts.py.lin_spec', '_lin._addterm'),
          ('modeling.py', 'contracts.py.lin_spec', '_lin.__len__'),
          ('modeling.py', 'contracts.py.function_spec', '_function.__imul__'),
          ('modeling.py', 'contracts.py.function_spec', '_function.__iadd__'),
-         ('modeling.py', 'contracts.py.function_spec', '_function.__isub__')]
+         ('modeling.py', 'contracts.py.function_spec', '_function.__isub__'),
+         ('modeling.py', 'contracts.py.function_index_spec', 'sum'),
+         ('modeling.py', 'contracts.py.function_index_spec',
+          '_function.__getitem__')]
 
 
 class Battery:
@@ -35,9 +38,18 @@ class Battery:
             p = subprocess.run(['/venv/bin/python', os.path.join(
                 ROOT, 'engine', 'replay', 'expr_battery.py')],
                 capture_output=True, text=True, timeout=900, env=env, cwd=d)
+            cnt = {}
             for line in p.stdout.splitlines():
                 if line.startswith('EXPR-JSON '):
                     self.result = json.loads(line[len('EXPR-JSON '):])
+                if line.startswith('EXPR-COUNT '):
+                    cnt = json.loads(line[len('EXPR-COUNT '):])
+            if self.result is not None and not self.result.get(
+                    'index-value') and cnt.get('sum-index', 0) < 60:
+                # vacuity guard: the indexing oracle compared (almost) nothing
+                self.err = 'sum / index oracle made only %s comparisons' % (
+                    cnt.get('sum-index'),)
+                self.result = None
             if self.result is None:
                 self.err = 'battery produced no result (exit %s): %s' % (
                     p.returncode, (p.stderr or p.stdout)[-1500:])
@@ -63,6 +75,10 @@ def make_replayer():
             want.append('imul-value')
         if ob.kind.startswith('iaddsub'):
             want = ['iaddsub-value']
+        if ob.kind.startswith('sum-'):
+            want = ['sum-value']
+        if ob.kind.startswith('index-'):
+            want = ['index-value', 'index-fresh', 'index-refuses']
         if ob.kind == 'len-value':
             want = ['len-value', 'addterm-value', 'addterm-exceptions']
         hits = {k: v for k, v in bat.result.items() if k in want}
@@ -113,8 +129,8 @@ def run(report, tier, seed):
         'every other operation of the expression algebra: _function '
         'arithmetic and '
         'curvature bookkeeping (_cvxterms / _ccvterms), _mul / _rmul, '
-        'indexing, sum / max / min / abs / dot, the in-place forms beyond '
-        '_addterm, refusal of non-convex combinations, value() itself',
+        'indexing of _lin / _minmax / variable, max / min / abs / dot, the '
+        'binary (not in-place) forms, value() itself',
         'that the callers of _addterm (_lin.__add__, __iadd__, ...) pass a '
         'copy where required']
     report.assumptions += [
@@ -122,5 +138,13 @@ def run(report, tier, seed):
         'x[k*[0], :], x[0], extended slices with their documented meaning; '
         'in-place addition is refused for a sparse left operand and a '
         'scalar / dense right operand (matrices.rst); floats as reals',
+        'sum(f), f[key] (contracts/py/function_index_spec.py): class '
+        'invariant of _function as precondition (parts have length 1 or '
+        'len(f); a term is a _minmax -- max in the convex list, min in the '
+        'concave one -- or a length-1 _sum_minmax over the components of '
+        'such a _minmax); _keytolist returns a list of indices in '
+        '[0, len(f)); +part copies, part[l] gathers, n * part scales, '
+        'builtins.sum adds the entries; the values of _minmax / _sum_minmax '
+        'objects are uninterpreted functions of (max or min, function list)',
         'requires: the representation invariant of _lin for the coefficient '
         'of v; a is a real scalar or a nonempty \'d\' matrix']
